@@ -258,6 +258,32 @@ Theorem encrypt_decrypt_never_leave_with_a_non_kmip_exception :
 Proof. intros. split; intros; [apply do_encrypt_never_crashes|apply do_decrypt_never_crashes]. Qed.
 Print Assumptions encrypt_decrypt_never_leave_with_a_non_kmip_exception.
 
+(* ... and since fix 2eb33d4 the asymmetric (RSA) and signing paths as well: encrypt(), decrypt() and sign() as a whole -
+   symmetric or RSA, for EVERY abstract cipher and EVERY abstract RSA backend (None = the backend refuses: message too
+   long for key and padding, cipher text of the wrong length or that does not decrypt, key too small) - end in a result
+   or in InvalidField / CryptographicFailure.  (verify_signature, mac, wrap_key and key creation caught every backend
+   exception already: verify_plan / mac_plan_of / wrap_plan_of / create_*_plan with lib_*_ok false = CryptographicFailure.) *)
+Theorem crypto_engine_never_leaves_with_a_non_kmip_exception :
+  forall E Dp urandom RE RD RS,
+    (forall p msg, do_encrypt_any E urandom RE p msg <> RCrash) /\
+    (forall p ct, do_decrypt_any Dp urandom RD p ct <> RCrash) /\
+    (forall p msg, do_sign RS p msg <> RCrash).
+Proof.
+  intros. repeat split; intros;
+    [apply do_encrypt_any_never_crashes|apply do_decrypt_any_never_crashes|apply do_sign_never_crashes].
+Qed.
+Print Assumptions crypto_engine_never_leaves_with_a_non_kmip_exception.
+
+Definition refuseR (k : bytes) (ap : asym_pad) (m : bytes) : option bytes := None.
+Example rsa_backend_refusal_is_cryptographic_failure :
+  do_encrypt_any toyE toyR refuseR (mkEnc (Some CA_RSA) [1] true None (Some PM_PKCS1v15) None None None None None) [1;2;3]
+  = RErr CryptographicFailure /\
+  do_decrypt_any toyD toyR refuseR (mkEnc (Some CA_RSA) [1] true None (Some PM_OAEP) None None None None (Some 6)) [1;2;3]
+  = RErr CryptographicFailure /\
+  do_sign (fun _ _ => None) (mkSig (Some 5) None None (Some PM_PSS) true) [1] = RErr CryptographicFailure /\
+  do_sign (fun _ m => Some m) (mkSig (Some 5) None None (Some PM_PSS) true) [1] = ROk [1].
+Proof. vm_compute. repeat split. Qed.
+
 (* the same at plan level: no plan accepted by the engine's guards reaches a stage that raises a non-KMIP exception *)
 Theorem no_non_kmip_exception_on_the_symmetric_path :
   forall dec a key mode padm iv aad taglen tag sp n,
